@@ -18,16 +18,11 @@ def moonF : Handler := fun fn a =>
   | "moon_mean_perigee" => some <| out (longitude_mean_perigee a[0]!.f)
   | "moon_illum" => some <| out (illuminated_fraction_disk a[0]!.f)
   | "moon_bright_limb" => some <| out (position_bright_limb a[0]!.f a[1]!.f a[2]!.f a[3]!.f)
-  | "moon_phase" => some <| out (moon_phase a[0]!.f a[1]!.s)
   | "moon_phase_raw" => some <| out (moon_phase_raw a[0]!.f a[1]!.s)
-  | "moon_apsis" => some <| out (moon_perigee_apogee a[0]!.f a[1]!.s)
-  | "moon_nodes" => some <| out (moon_passage_nodes a[0]!.f a[1]!.s)
-  | "moon_decl" => some <| out (moon_maximum_declination a[0]!.f a[1]!.s)
-  | "moon_phase_j" => some <| out (moon_phase_jde a[0]!.f a[1]!.s)
-  | "moon_apsis_j" => some <| out (moon_perigee_apogee_jde a[0]!.f a[1]!.s)
-  | "moon_nodes_j" => some <| out (moon_passage_nodes_jde a[0]!.f a[1]!.s)
-  | "moon_decl_j" => some <| out (moon_maximum_declination_jde a[0]!.f a[1]!.s)
-  | "moon_fyear" => some <| out (fyear a[0]!.f)
+  | "moon_phase_j" => some <| out (moon_phase a[0]!.f a[1]!.s)
+  | "moon_apsis_j" => some <| out (moon_perigee_apogee a[0]!.f a[1]!.s)
+  | "moon_nodes_j" => some <| out (moon_passage_nodes a[0]!.f a[1]!.s)
+  | "moon_decl_j" => some <| out (moon_maximum_declination a[0]!.f a[1]!.s)
   | "moon_app_ecl_j" => some <| out (apparent_ecliptical_pos_jde a[0]!.f)
   | "moon_app_equ_j" => some <| out (apparent_equatorial_pos_jde a[0]!.f)
   | "moon_bright_limb_j" => some <| out (position_bright_limb_jde a[0]!.f)
